@@ -8,6 +8,7 @@ from typing import Any, Callable, Iterable
 
 ROOT = Path(os.environ.get("LKV_ROOT", Path(__file__).resolve().parents[2]))
 LEAN_DIR = Path(os.environ.get("LKV_LEAN", ROOT / "lean"))
+OUT = Path(os.environ.get("LKV_OUT", ROOT))          # where evidence/ and replays/ are written (self-tests redirect it)
 DRIVER = LEAN_DIR / ".lake" / "build" / "bin" / "lkdriver"
 
 TRUSTED_BASE = [
@@ -204,7 +205,7 @@ def run_check(spec: CheckSpec, tier: str, seed: int, replay: str | None = None, 
             if sig: reported[sig] = 1
             else: unlabelled += 1
             violations += 1
-            rp = ROOT / "replays"; rp.mkdir(exist_ok=True, parents=True)
+            rp = OUT / "replays"; rp.mkdir(exist_ok=True, parents=True)
             path = rp / f"{spec.pid}-{seed}-{violations}.json"
             path.write_text(json.dumps({"property": spec.pid, "tier": tier, "seed": seed, "case": small, "detail": out2.detail,
                                         "verdict": verdict, "theorems": spec.theorems, "correspondence": spec.correspondence_ops,
@@ -236,6 +237,6 @@ def run_check(spec: CheckSpec, tier: str, seed: int, replay: str | None = None, 
         },
         "assumptions": TRUSTED_BASE, "wall_s": round(time.time() - t0, 2), "violations": violations,
     }
-    evd = ROOT / "evidence"; evd.mkdir(exist_ok=True, parents=True)
+    evd = OUT / "evidence"; evd.mkdir(exist_ok=True, parents=True)
     (evd / f"{spec.pid}.json").write_text(json.dumps(ev, indent=1, default=str))
     return exit_code
